@@ -56,14 +56,16 @@ func hsNegotiated(h string) bool {
 // (so that the server must close the connection rather than wait for more bytes).
 func hsComplete(h string) bool {
 	switch h {
-	case "wrong_line", "line_nonrequest", "no_versions", "bad_versions", "line_garbage_frame":
+	case "wrong_line", "line_nonrequest", "no_versions", "bad_versions", "line_garbage_frame",
+		"request_wrong_code", "open_with_request", "request_no_code", "code_without_request":
 		return true
 	}
 	return false
 }
 
 var hostileHandshakes = []string{"valid", "valid", "valid", "split", "unknown_comp", "extra_versions",
-	"wrong_line", "wrong_line2", "partial_line", "no_line", "line_garbage_frame", "line_nonrequest", "no_versions", "bad_versions", "silent", "line_only"}
+	"wrong_line", "wrong_line2", "partial_line", "no_line", "line_garbage_frame", "line_nonrequest", "no_versions", "bad_versions", "silent", "line_only",
+	"request_wrong_code", "open_with_request", "request_no_code", "code_without_request"}
 
 var hostileSteps = []string{"open", "open", "open_data", "data", "close", "window", "batch_open_close", "nested_batch", "dup_open",
 	"unknown_data", "unknown_window", "unknown_close", "garbage_frame", "truncated_frame", "huge_len", "bitflip_open", "window_neg", "window_huge",
@@ -216,6 +218,43 @@ func (h *hostileRun) handshakeBytes(p HostilePeer) []byte {
 		return append(line, req(pmpx.ConnectInput{})...)
 	case "bad_versions":
 		return append(line, req(pmpx.ConnectInput{Versions: []pmpx.Version{pmpx.Version(99), pmpx.Version(0)}})...)
+	case "request_wrong_code", "request_no_code", "open_with_request", "code_without_request":
+		// first frames that are not a connect request although they look like one in part: a perfectly good
+		// connect_request field under another (or no) message code, or the code without the field
+		buf := alloc.NewBuffer()
+		w := pmpx.NewMessageWriterBuffer(buf)
+		switch p.Handshake {
+		case "request_wrong_code":
+			codes := []pmpx.Code{pmpx.Code_ConnectResponse, pmpx.Code_Batch, pmpx.Code_ChannelOpen, pmpx.Code_ChannelData, pmpx.Code_ChannelWindow, pmpx.Code(77)}
+			w.Code(codes[(p.StartUs+len(p.Steps))%len(codes)])
+		case "open_with_request":
+			w.Code(pmpx.Code_ChannelOpen)
+			o := w.ChannelOpen()
+			o.Id(rawID(98, 0))
+			o.Window(1000)
+			o.Data([]byte("x"))
+			if err := o.End(); err != nil {
+				panic(err)
+			}
+		case "code_without_request":
+			w.Code(pmpx.Code_ConnectRequest)
+		}
+		if p.Handshake != "code_without_request" {
+			r := w.ConnectRequest()
+			vs := r.Versions()
+			vs.Add(pmpx.Version_Version10)
+			if err := vs.End(); err != nil {
+				panic(err)
+			}
+			if err := r.End(); err != nil {
+				panic(err)
+			}
+		}
+		m, err := w.Build()
+		if err != nil {
+			panic(err)
+		}
+		return append(line, frameOf(m)...)
 	case "line_only":
 		return line
 	case "silent":
